@@ -16,7 +16,8 @@ type Flow struct {
 	Info *types.Info
 	Body *ast.BlockStmt
 	// position of every CFG node: block index and index within block
-	at map[ast.Node][2]int
+	at     map[ast.Node][2]int
+	edgeOK EdgeOK
 }
 
 // NewFlow builds the CFG of a function body. Calls to panic, os.Exit, log.Fatal* and
@@ -120,6 +121,32 @@ func (fl *Flow) ReachableFromAvoiding(sblk, sidx, tblk, tidx int, barrier NodePr
 	return fl.reachFrom(sblk, sidx+1, tblk, tidx, barrier)
 }
 
+// EdgeOK filters CFG edges: return false to forbid taking successor #succ of block blk.
+type EdgeOK func(blk *cfg.Block, succ int) bool
+
+// ReachableAvoidingEdges is ReachableAvoiding on the sub-graph that keeps only edges accepted by edgeOK.
+func (fl *Flow) ReachableAvoidingEdges(tblk, tidx int, barrier NodePred, edgeOK EdgeOK) (bool, []int) {
+	fl.edgeOK = edgeOK
+	defer func() { fl.edgeOK = nil }()
+	return fl.reachFrom(0, 0, tblk, tidx, barrier)
+}
+
+// WithEdges runs f with the CFG restricted to the edges accepted by edgeOK.
+func (fl *Flow) WithEdges(edgeOK EdgeOK, f func()) {
+	fl.edgeOK = edgeOK
+	defer func() { fl.edgeOK = nil }()
+	f()
+}
+
+// CondOf returns the branch condition that ends block b (two successors: [0] true, [1] false), or nil.
+func (fl *Flow) CondOf(b *cfg.Block) ast.Expr {
+	if len(b.Succs) != 2 || len(b.Nodes) == 0 {
+		return nil
+	}
+	e, _ := b.Nodes[len(b.Nodes)-1].(ast.Expr)
+	return e
+}
+
 func (fl *Flow) reachFrom(sblk, sidx, tblk, tidx int, barrier NodePred) (bool, []int) {
 	type state struct{ blk int }
 	// scan a block from index i; returns (hit target, blocked)
@@ -145,7 +172,10 @@ func (fl *Flow) reachFrom(sblk, sidx, tblk, tidx int, barrier NodePred) (bool, [
 	prev := map[int]int{}
 	visited := map[int]bool{}
 	queue := []int{}
-	for _, s := range start.Succs {
+	for si, s := range start.Succs {
+		if fl.edgeOK != nil && !fl.edgeOK(start, si) {
+			continue
+		}
 		if !visited[int(s.Index)] {
 			visited[int(s.Index)] = true
 			prev[int(s.Index)] = sblk
@@ -171,7 +201,10 @@ func (fl *Flow) reachFrom(sblk, sidx, tblk, tidx int, barrier NodePred) (bool, [
 		if blocked {
 			continue
 		}
-		for _, s := range b.Succs {
+		for si, s := range b.Succs {
+			if fl.edgeOK != nil && !fl.edgeOK(b, si) {
+				continue
+			}
 			if !visited[int(s.Index)] {
 				visited[int(s.Index)] = true
 				prev[int(s.Index)] = bi
